@@ -41,10 +41,17 @@ const (
 	kTry                // fp.Try[fp.Seq[int]]
 	kTup                // fp.Tuple2[fp.Seq[int], map[int]int]
 	kSeqSeq             // fp.Seq[fp.Seq[int]]
+	// kinds that only occur in the second-API histories (secondapi.go)
+	kOptMap   // fp.Option[map[string]int]
+	kOptPtr   // fp.Option[*boxT]
+	kDoc      // docT: a struct holding Options (slice, map, pointer, struct payloads), a Seq of Options, a map of Options
+	kOptSeqs  // fp.Seq[fp.Option[fp.Seq[int]]]
+	kOptGoMap // map[string]fp.Option[fp.Seq[int]]
 	nKinds
 )
 
-var kindNames = [...]string{"Seq", "Seq[Tuple2]", "map[int]int", "map[int]Seq", "fp.Map", "fp.Set", "MapBuilder", "SetBuilder", "fp.List", "Option[Seq]", "Try[Seq]", "Tuple2[Seq,map]", "Seq[Seq]"}
+var kindNames = [...]string{"Seq", "Seq[Tuple2]", "map[int]int", "map[int]Seq", "fp.Map", "fp.Set", "MapBuilder", "SetBuilder", "fp.List", "Option[Seq]", "Try[Seq]", "Tuple2[Seq,map]", "Seq[Seq]",
+	"Option[map[string]int]", "Option[*struct]", "struct{Options}", "Seq[Option[Seq]]", "map[string]Option[Seq]"}
 
 type (
 	Seq    = fp.Seq[int]
@@ -150,10 +157,19 @@ type hist struct {
 	fresh    []*entry // results of the running operation
 	curB     *builderV
 	afterB   bool // the running operation is a use of a builder after Build
+	ext      bool // second-API history: the ext operations of the table are eligible too
+	quiet    bool // long-run filler call: arguments are not rendered
+	logMax   int  // 0 = 400
+	extra    map[string]any // further witness fields
+	lr       *lrun
 }
 
 func (h *hist) witness() any {
-	return map[string]any{"universe": h.universe, "ops": h.log}
+	m := map[string]any{"universe": h.universe, "ops": h.log}
+	for k, v := range h.extra {
+		m[k] = v
+	}
+	return m
 }
 
 func (h *hist) n(k int) int { return h.r.IntN(k) }
@@ -166,6 +182,9 @@ func (h *hist) items(n int) []int {
 	return s
 }
 func (h *hist) arg(format string, a ...any) {
+	if h.quiet {
+		return
+	}
 	h.cur.args = append(h.cur.args, fmt.Sprintf(format, a...))
 }
 
@@ -440,8 +459,14 @@ func (h *hist) violate(key string, e *entry, d *difference, opText string) {
 // checkAll re-snapshots every live value and compares with the snapshot taken before the
 // operation that has just run.
 func (h *hist) checkAll(name string, ins []*entry, opText string) {
-	for _, e := range h.pool {
-		if e.last == nil {
+	h.checkEntries(h.pool, name, ins, opText)
+}
+
+// checkEntries does the comparison of checkAll for the given live values only (long-run
+// cases compare the related values at every event and the whole pool at phase ends).
+func (h *hist) checkEntries(list []*entry, name string, ins []*entry, opText string) {
+	for _, e := range list {
+		if e.last == nil || h.failed {
 			continue
 		}
 		isFresh := false
@@ -489,6 +514,17 @@ func (h *hist) checkAll(name string, ins []*entry, opText string) {
 	}
 }
 
+func (h *hist) logOp(text string) {
+	lim := h.logMax
+	if lim == 0 {
+		lim = 400
+	}
+	if len(h.log) < lim {
+		h.log = append(h.log, text)
+	}
+	h.fp = h.fp*1099511628211 ^ vrt.Hash64(text)
+}
+
 func (h *hist) sharesStorage(e *entry) bool {
 	if e.last == nil {
 		return false
@@ -528,10 +564,7 @@ func (h *hist) apply(op *opDef, ins []*entry) {
 		h.shared = true
 	}
 	text := h.cur.String()
-	if len(h.log) < 400 {
-		h.log = append(h.log, text)
-	}
-	h.fp = h.fp*1099511628211 ^ vrt.Hash64(text)
+	h.logOp(text)
 	for _, e := range h.fresh {
 		e.desc = "result of " + text
 		e.first = h.snapshot(e)
@@ -562,16 +595,29 @@ func (h *hist) step() {
 	for _, e := range h.pool {
 		cnt[e.kind]++
 	}
+	// classic histories draw from the classic operations only (their PRNG streams are the
+	// ones they always had); a second-API history draws every other step from the ext
+	// operations alone
+	extOnly := false
+	if h.ext {
+		extOnly = h.n(2) == 0
+	}
+	eligible := func(op *opDef) bool {
+		if op.ext && !h.ext || extOnly && !op.ext {
+			return false
+		}
+		return op.applicable(&cnt)
+	}
 	total := 0
 	for _, op := range ops {
-		if op.applicable(&cnt) {
+		if eligible(op) {
 			total += op.w
 		}
 	}
 	x := h.n(total)
 	var chosen *opDef
 	for _, op := range ops {
-		if op.applicable(&cnt) {
+		if eligible(op) {
 			if x < op.w {
 				chosen = op
 				break
